@@ -121,7 +121,7 @@ Section CursorRun.
   Hypothesis Hstop : j_stop c = 0.
   Hypothesis Hcanon_U : Forall (fun x => In x U) canon.
   Hypothesis Hcanon_l : exists x, lnk x canon.
-  Hypothesis Hcanon_start : exists b, In b canon /\ bnum b = start.
+  Hypothesis Hcanon_start : exists b, In b canon /\ bnum b <= start.
   Variable merged : list block.
   Hypothesis Hmode2 : (j_mode c =? 2) = false.
   Hypothesis Hmerged_U : forall b, In b merged -> In b U.
@@ -237,8 +237,8 @@ Proof.
   { intros x Hx. assert (H : In x (from_num lib canon)) by (rewrite Hfrom; right; exact Hx). unfold from_num in H. apply filter_In in H as [H _]. exact H. }
   (* the start block of the section lemmas: the first block after L *)
   set (start := match rest with r1 :: _ => bnum r1 | [] => bnum L end).
-  assert (Hstartblk : exists b, In b canon /\ bnum b = start).
-  { unfold start. destruct rest as [|r1 rest1]; [exists L; auto | exists r1; split; [apply Hrestc; left; reflexivity | reflexivity]]. }
+  assert (Hstartblk : exists b, In b canon /\ bnum b <= start).
+  { unfold start. destruct rest as [|r1 rest1]; [exists L; split; [exact HLc | lia] | exists r1; split; [apply Hrestc; left; reflexivity | lia]]. }
   assert (Hmode2 : (j_mode c =? 2) = false) by (rewrite Hmode; reflexivity).
   set (J0 := rev (hc ++ hf)).
   set (D := file_delivery merged lib file_bound (j_bundle c)).
